@@ -605,7 +605,7 @@ public:
         return theSubstring.assign(
                     *this,
                     thePosition,
-                    theCount == npos ? length() : theCount);
+                    theCount == npos ? length() - thePosition : theCount);
     }
 
     int
